@@ -128,6 +128,105 @@ def local_names(fnode):
     return out
 
 
+# Input domain of the properties: the parameters with these names are square two-dimensional numpy arrays (adjacency / weight matrices, as the
+# docstrings say).  A test that only inspects the *shape or type* of such a parameter (`A.ndim != 2`, `A.shape[0] != A.shape[1]`,
+# `not isinstance(A, np.ndarray)`) has one truth value on that domain: the `if` is read as the branch taken there, by every analysis and by the
+# shape gate, and the evidence lists the assumption.
+SQUARE_PARAMS = {"A", "P", "G", "W", "pdag", "cpdag"}
+NOT_SQUARE = {("separates", "A"), ("allclose", "A"), ("nonzero", "A"), ("member", "A"), ("plot_matrix", "A")}     # a node set / arrays of any shape under the same name
+
+
+def domain_guard(test, mats, used):
+    """True / False when `test` is decided by "the parameters `mats` are square 2-D ndarrays" alone, else None"""
+    def mat(e):
+        if isinstance(e, ast.Name) and e.id in mats:
+            used.add(e.id)
+            return e.id
+        return None
+
+    def val(e):
+        """2 for the rank, ('n', X) for the side of X, ints for constants; None unknown"""
+        if isinstance(e, ast.Constant) and type(e.value) is int:
+            return e.value
+        if isinstance(e, ast.Attribute) and e.attr == "ndim" and mat(e.value):
+            return 2
+        if isinstance(e, ast.Call) and isinstance(e.func, ast.Name) and e.func.id == "len" and len(e.args) == 1 and not e.keywords:
+            x = e.args[0]
+            if mat(x):
+                return ("n", x.id)
+            if isinstance(x, ast.Attribute) and x.attr == "shape" and mat(x.value):
+                return 2
+        if isinstance(e, ast.Subscript) and isinstance(e.value, ast.Attribute) and e.value.attr == "shape" and mat(e.value.value) and \
+                isinstance(e.slice, ast.Constant) and e.slice.value in (0, 1, -1, -2):
+            return ("n", e.value.value.id)
+        return None
+
+    def cmp(op, l, r):
+        if isinstance(l, int) and isinstance(r, int):
+            return {ast.Eq: l == r, ast.NotEq: l != r, ast.Lt: l < r, ast.LtE: l <= r, ast.Gt: l > r, ast.GtE: l >= r}.get(type(op))
+        if isinstance(l, tuple) and l == r:
+            return {ast.Eq: True, ast.NotEq: False, ast.Lt: False, ast.LtE: True, ast.Gt: False, ast.GtE: True}.get(type(op))
+        return None
+
+    def tv(e):
+        if isinstance(e, ast.BoolOp):
+            vs = [tv(x) for x in e.values]
+            if isinstance(e.op, ast.Or):
+                return True if True in vs and all(v is not None for v in vs[:vs.index(True) + 1]) else (False if all(v is False for v in vs) else None)
+            return False if False in vs and all(v is not None for v in vs[:vs.index(False) + 1]) else (True if all(v is True for v in vs) else None)
+        if isinstance(e, ast.UnaryOp) and isinstance(e.op, ast.Not):
+            v = tv(e.operand)
+            return None if v is None else not v
+        if isinstance(e, ast.Compare) and len(e.ops) == 1:
+            l, r = val(e.left), val(e.comparators[0])
+            if l is None or r is None:
+                return None
+            return cmp(e.ops[0], l, r)
+        if isinstance(e, ast.Call) and isinstance(e.func, ast.Name) and e.func.id == "isinstance" and len(e.args) == 2 and not e.keywords and mat(e.args[0]) and \
+                (dotted_of(e.args[1]) or "") in ("np.ndarray", "numpy.ndarray"):
+            return True
+        return None
+    return tv(test)
+
+
+def resolve_domain_guards(tree):
+    """rewrite every `if` decided by domain_guard to the branch taken; -> [(function name, line, parameter)]"""
+    assumed = []
+
+    def block(stmts, mats, fname):
+        out = []
+        for st in stmts:
+            if isinstance(st, (ast.FunctionDef, ast.AsyncFunctionDef)):
+                a = st.args
+                own = {x.arg for x in a.posonlyargs + a.args + a.kwonlyargs if (st.name, x.arg) not in NOT_SQUARE} & SQUARE_PARAMS
+                st.body = block(st.body, own, st.name) or [ast.copy_location(ast.Pass(), st)]
+                out.append(st)
+                continue
+            if isinstance(st, ast.ClassDef):
+                st.body = block(st.body, set(), fname)
+                out.append(st)
+                continue
+            if isinstance(st, ast.If) and mats:
+                used = set()
+                d = domain_guard(st.test, mats, used)
+                if d is not None:
+                    for m in sorted(used):
+                        assumed.append((fname, st.lineno, m))
+                    out.extend(block(st.body if d else st.orelse, mats, fname))
+                    continue
+            for fld in ("body", "orelse", "finalbody"):
+                sub = getattr(st, fld, None)
+                if isinstance(sub, list) and sub and isinstance(sub[0], ast.stmt):
+                    new = block(sub, mats, fname)
+                    setattr(st, fld, new if new or fld != "body" else [ast.copy_location(ast.Pass(), st)])
+            for h in getattr(st, "handlers", None) or []:
+                h.body = block(h.body, mats, fname) or [ast.copy_location(ast.Pass(), h)]
+            out.append(st)
+        return out
+    tree.body = block(tree.body, set(), "<module>")
+    return assumed
+
+
 AXIS_METHODS = {"sum", "any", "all", "max", "min", "prod", "mean", "cumsum", "argmax", "argmin"}
 SET_HELPERS = {"pa", "ch", "neighbors", "adj", "na", "set", "frozenset"}
 SET_METHODS = {"intersection": ast.BitAnd, "union": ast.BitOr, "difference": ast.Sub}
@@ -195,6 +294,7 @@ class Module:
         self.sha256 = hashlib.sha256(raw).hexdigest()
         self.src = raw.decode("utf-8")
         self.tree = normalise(ast.parse(self.src, filename=path))
+        self.domain_assumed = resolve_domain_guards(self.tree)
         self.package = name.split(".")[0]
         self.is_pkg = os.path.basename(path) == "__init__.py"
         self.imports = {}      # alias -> dotted
